@@ -114,6 +114,8 @@ def draw_vc(ntm, nfm, with_lengths):
               assumptions=["torch.rand yields values in [0, 1)", "float arithmetic treated as real arithmetic (the eps tricks exist for rounding; rounding itself is exercised by the bounded driver)",
                            "input validation (_spec_augment_check_input) assumed passed: 1 <= length <= T", "batch size 1 and a concrete number of masks per VC: the code is element-wise in both"],
               lemmas=[("product_facts_are_valid", [], z3.And(solve.product_facts(PA, PB, PA * PB) + solve.shared_factor_facts(PA, PB, PC, PA * PB, PA * PC)), "raw"),
+                      ("ratio_facts_are_valid", [PB != 0], z3.And([(PA / PB) * PB == PA] + solve.ratio_facts(PA, PB, PA / PB)), "raw"),
+                      ("quotient_facts_are_valid", [IB > 0], z3.And(IA == IB * (IA / IB) + IA % IB, IA % IB >= 0, IA % IB < IB), "raw"),
                       ("product_facts_are_valid_over_the_integers", [], z3.And(solve.product_facts(IA, IB, IA * IB) + solve.shared_factor_facts(IA, IB, IC, IA * IB, IA * IC)), "raw")],
               timeout_ms=60000)
 
